@@ -167,6 +167,8 @@ def r1(ctx: Ctx, fn: Func, rule: str, deliver_direct: bool, deliver_funcs: set[s
             elif "_read" in names:
                 reads.append((n, var, None))
     ctx.analysed.setdefault("reads", {})[fn.key] = [(v, s) for _, v, s in reads]
+    n_read_calls = sum(1 for n in g.reachable() for c in node_calls(n) if {f.name for f in res.callees(fn, c).funcs} & {"_read", "_read_varuint"})
+    ctx.ob(rule, fn, "every buffer read binds its result to a name that can be tested", n_read_calls == len(reads), f"{n_read_calls} read calls, {len(reads)} bound directly to a local: a read result used inside a larger expression cannot be checked for 'bytes missing'")
     for rn, var, sentinel in reads:
         def classify(n: Node, var=var, sentinel=sentinel):
             t = n.ast
